@@ -30,6 +30,20 @@ def check(rep):
         return
     hs = muxgen.exhaustive_small()
     hs += [muxgen.random_history(rng, bad=0.02) for _ in range(300 if rep.tier == "quick" else 6000)]
+    U32 = 1 << 32
+    # timescales near 2^32 with durations whose product with the movie timescale crosses 2^64 while the quotient still fits (the conversion must be done in 128 bits)
+    for mts, tts, durs in ((4000000000, 4000000000, [2000000000] * 3), (U32 - 1, U32 - 1, [U32 - 1, U32 - 1]), (U32 - 1, 1 << 31, [1 << 31, 1 << 31, 5]), (1 << 31, 3, [U32 - 1, 7])):
+        hs.append({"base": 0, "cfg": dict(muxgen.DEFAULT_CFG, timescale=mts), "ops": [{"add": muxgen.tc("aac", ts=tts)}] + [{"w": [1, d, 0, True, "aa"]} for d in durs]})
+    # brand lists with repeated brands (adjacent, non-adjacent, equal to the major brand), and a long list
+    isom, iso2, mp41 = muxgen.fourcc("isom"), muxgen.fourcc("iso2"), muxgen.fourcc("mp41")
+    for brands in ([isom, iso2, isom, mp41], [isom, isom], [iso2, mp41, mp41, iso2, iso2], [isom] * 7, list(range(1, 40))):
+        hs.append({"base": 0, "cfg": {"major": isom, "minor": 512, "brands": brands, "timescale": 1000}, "ops": [{"add": muxgen.tc("avc")}, {"w": [1, 40, 0, True, "aabb"]}]})
+    # several tracks whose durations cross 2^32 movie ticks in different positions of the track list (the movie header follows the longest)
+    for order in ((5000000, 10), (10, 5000000), (10, 5000000, 20), (5000000, 4999999)):
+        ops = [{"add": muxgen.tc("ttxt", ts=1)} for _ in order]
+        for ti, d in enumerate(order):
+            ops.append({"w": [ti + 1, d, 0, True, "aa"]})
+        hs.append({"base": 0, "cfg": dict(muxgen.DEFAULT_CFG, timescale=1000), "ops": ops})
     # parameter sets at the top of their 16-bit length range (the avcC box and every container around it must still add up), empty PPS
     for n, k in ((65535, 65535), (65534, 1), (65533, 0), (4, 65535), (4, 65534)):
         hs.append({"base": 0, "cfg": muxgen.DEFAULT_CFG, "ops": [{"add": muxgen.tc("avc", sps="67" * n, pps="68" * k)}, {"add": muxgen.tc("aac")},
